@@ -1,1 +1,3 @@
 //! Shared reference models / validators.
+pub mod desc;
+pub mod schema;
